@@ -20,7 +20,8 @@ func init() {
 			"C10.3 ReadFrom hands out s.buff[:n] and advances by the same n; on the incomplete outcome it only appends; on the invalid outcome it returns the error; " +
 			"C10.4 stream reads are full reads: every Read on a net.Conn in the module has its byte count used as the bound of the bytes consumed (a discarded count, or a count compared for equality with the buffer size as an error test, assumes segmentation); the ConnectionBind reply is read from the data connection only through io.ReadFull with exactly-sized buffers and the connection is not handed to a buffering reader; " +
 			"C10.5 the verdict 'not a TURN frame' does not depend on the declared length field or on how many payload bytes have arrived (only on the header bytes that classify the frame and on the header-size thresholds); " +
-			"C10.6 that verdict is reached only after ChannelNumber.Valid (the module's one range predicate) has refused the leading 16 bits: the framer has no second notion of which channel numbers exist.",
+			"C10.6 that verdict is reached only after ChannelNumber.Valid (the module's one range predicate) has refused the leading 16 bits: the framer has no second notion of which channel numbers exist; " +
+			"C10.7 the reassembly buffer STUNConn.buff is written by ReadFrom (and its helpers) only: no accessor or other method takes bytes out of it or resets it between two reads.",
 		NotCovered: "segmentation independence as a whole and frame ordering are dynamic; behaviour of net.Conn.Read and of pion/stun's IsMessage beyond its inlined shape.",
 		Run:        runC10,
 	})
@@ -48,6 +49,7 @@ func runC10(c *Ctx) {
 	ruleProgress(c, "C10.1p")
 
 	ruleFramerClassification(c, "C10.6")
+	ruleReassemblyBufferOwner(c, "C10.7")
 
 	// ---- C10.2
 	c.Rule("C10.2", "contradiction rule: a return of the 'incomplete' error guarded only by len(b) < K (no classification fact yet) requires K ≤ the lower bound of the frame size on the nil-error returns of the same function", 1)
@@ -379,112 +381,7 @@ func runC10(c *Ctx) {
 		if n == 0 {
 			c.Bad("C10.4", "-", "Read", "-", "no stream Read found in the module: anchor (STUNConn.ReadFrom's Read) gone")
 		}
-		// who-may-read the data connection in BindConnection
-		c.Anchor("C10.4", "BindConnection dataConn")
-		dc := bind.Params[1]
-		bad := ""
-		nFull := 0
-		flowFns := map[*ssa.Function]bool{bind: true} // functions the data connection flows into
-		seenV := map[ssa.Value]bool{}
-		var visit func(v ssa.Value)
-		visit = func(v ssa.Value) {
-			if seenV[v] || v.Referrers() == nil {
-				return
-			}
-			seenV[v] = true
-			for _, r := range *v.Referrers() {
-				switch x := r.(type) {
-				case *ssa.MakeInterface:
-					visit(x)
-				case *ssa.ChangeInterface:
-					visit(x)
-				case *ssa.FieldAddr, *ssa.DebugRef:
-				case *ssa.Store:
-					// kept in a field of a module struct (a context object whose methods do the
-					// exchange): every read of that field is the connection again
-					if fa, isFA := x.Addr.(*ssa.FieldAddr); isFA && x.Val == v {
-						fld := fieldOf(fa)
-						if fld.Pkg() != nil && strings.HasPrefix(fld.Pkg().Path(), modPath) && !fld.Exported() {
-							for _, fn2 := range w.ModFns {
-								w.eachInstr(fn2, func(i2 ssa.Instruction) {
-									if ld, isLd := i2.(*ssa.UnOp); isLd && ld.Op == token.MUL {
-										if fa2, ok2 := ld.X.(*ssa.FieldAddr); ok2 && fieldOf(fa2) == fld {
-											flowFns[fn2] = true
-											visit(ld)
-										}
-									}
-								})
-							}
-						}
-					}
-				case ssa.CallInstruction:
-					cc := x.Common()
-					if cal := cc.StaticCallee(); cal != nil {
-						switch {
-						case cal.String() == "io.ReadFull" && len(cc.Args) == 2 && cc.Args[0] == v:
-							nFull++
-						case cal.Name() == "Write" || cal.Name() == "Read":
-						case strings.Contains(cal.String(), "log") || strings.Contains(cal.String(), "fmt."):
-						case w.IsMod[cal] && cal.Signature.Recv() == nil && len(cal.Blocks) > 0:
-							// a module helper: what it does with the connection is held to the same rule
-							flowFns[cal] = true
-							for i, a := range cc.Args {
-								if a == v && i < len(cal.Params) {
-									visit(cal.Params[i])
-								}
-							}
-						default:
-							if cc.Args[0] == v && cal.Signature.Recv() != nil {
-								continue // method call on the conn itself (Write, SetDeadline, …)
-							}
-							bad = "the data connection is handed to " + fname(cal) + " at " + w.instrPos(x) + ": a reader that buffers may consume bytes past the ConnectionBind reply, which belong to the user"
-						}
-					} else if cc.IsInvoke() && cc.Value == v {
-						// interface method on the conn
-					} else {
-						bad = "the data connection is passed to a dynamic call at " + w.instrPos(x)
-					}
-				}
-			}
-		}
-		visit(dc)
-		if bad == "" && nFull >= 2 {
-			c.OK("C10.4", fname(bind), "dataConn uses", w.pos(bind.Pos()), fmt.Sprintf("%d io.ReadFull reads (header, body) and Write only", nFull))
-		} else {
-			if bad == "" {
-				bad = fmt.Sprintf("the reply is not read by io.ReadFull of header and body (%d ReadFull calls)", nFull)
-			}
-			c.Bad("C10.4", fname(bind), "dataConn uses", w.pos(bind.Pos()), bad)
-		}
-		// the two ReadFull buffers are exactly the header (20) and the declared remainder
-		c.Anchor("C10.4", "BindConnection sizes")
-		okSizes := 0
-		var ffs []*ssa.Function
-		for f := range flowFns {
-			ffs = append(ffs, f)
-		}
-		sort.Slice(ffs, func(i, j int) bool { return ffs[i].String() < ffs[j].String() })
-		for _, ff := range ffs {
-			w.eachInstr(ff, func(in ssa.Instruction) {
-				call, ok := in.(*ssa.Call)
-				if !ok || call.Call.StaticCallee() == nil || call.Call.StaticCallee().String() != "io.ReadFull" {
-					return
-				}
-				l := a.rangeOfTerm(Term{Len: true, V: call.Call.Args[1]}, in, 3)
-				if l.lo == 20 && l.hi == 20 {
-					okSizes++ // header
-				} else if sl, isS := call.Call.Args[1].(*ssa.Slice); isS && sl.Low != nil {
-					if k, isK := constInt(sl.Low); isK && k == 20 && (sl.High == nil || declaredSTUNSize(sl.High)) {
-						okSizes++ // raw[20:], or buf[20:size] with size = 20 + the header's declared length
-					}
-				}
-			})
-		}
-		if okSizes >= 2 {
-			c.OK("C10.4", fname(bind), "read sizes", w.pos(bind.Pos()), "reads exactly 20 header bytes, then raw[20:] of a buffer sized from the declared length")
-		} else {
-			c.Bad("C10.4", fname(bind), "read sizes", w.pos(bind.Pos()), "the ConnectionBind reply is not read as exactly header + declared body")
-		}
+		ruleBindReplyExact(c, "C10.4")
 	}
 
 	// ---- C10.5
@@ -675,4 +572,160 @@ func declaredSTUNSize(v ssa.Value) bool {
 		}
 	}
 	return false
+}
+
+// ruleBindReplyExact: the ConnectionBind reply is taken off the data connection by exact reads
+// (header, then the declared body) and the connection goes to no other reader — every byte
+// after the reply belongs to the user of the data connection (C10.4; shared with C16 as the
+// client half of "bytes are copied unmodified and in order").
+func ruleBindReplyExact(c *Ctx, rule string) {
+	w := c.W
+	a := w.absint()
+	bind := w.Func("client", "TCPAllocation", "BindConnection")
+	// who-may-read the data connection in BindConnection
+	c.Anchor(rule, "BindConnection dataConn")
+	dc := bind.Params[1]
+	bad := ""
+	nFull := 0
+	flowFns := map[*ssa.Function]bool{bind: true} // functions the data connection flows into
+	seenV := map[ssa.Value]bool{}
+	var visit func(v ssa.Value)
+	visit = func(v ssa.Value) {
+		if seenV[v] || v.Referrers() == nil {
+			return
+		}
+		seenV[v] = true
+		for _, r := range *v.Referrers() {
+			switch x := r.(type) {
+			case *ssa.MakeInterface:
+				visit(x)
+			case *ssa.ChangeInterface:
+				visit(x)
+			case *ssa.FieldAddr, *ssa.DebugRef:
+			case *ssa.Store:
+				// kept in a field of a module struct (a context object whose methods do the
+				// exchange): every read of that field is the connection again
+				if fa, isFA := x.Addr.(*ssa.FieldAddr); isFA && x.Val == v {
+					fld := fieldOf(fa)
+					if fld.Pkg() != nil && strings.HasPrefix(fld.Pkg().Path(), modPath) && !fld.Exported() {
+						for _, fn2 := range w.ModFns {
+							w.eachInstr(fn2, func(i2 ssa.Instruction) {
+								if ld, isLd := i2.(*ssa.UnOp); isLd && ld.Op == token.MUL {
+									if fa2, ok2 := ld.X.(*ssa.FieldAddr); ok2 && fieldOf(fa2) == fld {
+										flowFns[fn2] = true
+										visit(ld)
+									}
+								}
+							})
+						}
+					}
+				}
+			case ssa.CallInstruction:
+				cc := x.Common()
+				if cal := cc.StaticCallee(); cal != nil {
+					switch {
+					case cal.String() == "io.ReadFull" && len(cc.Args) == 2 && cc.Args[0] == v:
+						nFull++
+					case cal.Name() == "Write" || cal.Name() == "Read":
+					case strings.Contains(cal.String(), "log") || strings.Contains(cal.String(), "fmt."):
+					case w.IsMod[cal] && cal.Signature.Recv() == nil && len(cal.Blocks) > 0:
+						// a module helper: what it does with the connection is held to the same rule
+						flowFns[cal] = true
+						for i, a := range cc.Args {
+							if a == v && i < len(cal.Params) {
+								visit(cal.Params[i])
+							}
+						}
+					default:
+						if cc.Args[0] == v && cal.Signature.Recv() != nil {
+							continue // method call on the conn itself (Write, SetDeadline, …)
+						}
+						bad = "the data connection is handed to " + fname(cal) + " at " + w.instrPos(x) + ": a reader that buffers may consume bytes past the ConnectionBind reply, which belong to the user"
+					}
+				} else if cc.IsInvoke() && cc.Value == v {
+					// interface method on the conn
+				} else {
+					bad = "the data connection is passed to a dynamic call at " + w.instrPos(x)
+				}
+			}
+		}
+	}
+	visit(dc)
+	if bad == "" && nFull >= 2 {
+		c.OK(rule, fname(bind), "dataConn uses", w.pos(bind.Pos()), fmt.Sprintf("%d io.ReadFull reads (header, body) and Write only", nFull))
+	} else {
+		if bad == "" {
+			bad = fmt.Sprintf("the reply is not read by io.ReadFull of header and body (%d ReadFull calls)", nFull)
+		}
+		c.Bad(rule, fname(bind), "dataConn uses", w.pos(bind.Pos()), bad)
+	}
+	// the two ReadFull buffers are exactly the header (20) and the declared remainder
+	c.Anchor(rule, "BindConnection sizes")
+	okSizes := 0
+	var ffs []*ssa.Function
+	for f := range flowFns {
+		ffs = append(ffs, f)
+	}
+	sort.Slice(ffs, func(i, j int) bool { return ffs[i].String() < ffs[j].String() })
+	for _, ff := range ffs {
+		w.eachInstr(ff, func(in ssa.Instruction) {
+			call, ok := in.(*ssa.Call)
+			if !ok || call.Call.StaticCallee() == nil || call.Call.StaticCallee().String() != "io.ReadFull" {
+				return
+			}
+			l := a.rangeOfTerm(Term{Len: true, V: call.Call.Args[1]}, in, 3)
+			if l.lo == 20 && l.hi == 20 {
+				okSizes++ // header
+			} else if sl, isS := call.Call.Args[1].(*ssa.Slice); isS && sl.Low != nil {
+				if k, isK := constInt(sl.Low); isK && k == 20 && (sl.High == nil || declaredSTUNSize(sl.High)) {
+					okSizes++ // raw[20:], or buf[20:size] with size = 20 + the header's declared length
+				}
+			}
+		})
+	}
+	if okSizes >= 2 {
+		c.OK(rule, fname(bind), "read sizes", w.pos(bind.Pos()), "reads exactly 20 header bytes, then raw[20:] of a buffer sized from the declared length")
+	} else {
+		c.Bad(rule, fname(bind), "read sizes", w.pos(bind.Pos()), "the ConnectionBind reply is not read as exactly header + declared body")
+	}
+}
+
+// ruleReassemblyBufferOwner (C10.7): the bytes received but not yet returned live in
+// STUNConn.buff; framing survives arbitrary segmentation only if every byte stays there until
+// ReadFrom hands it out as part of a frame. Who may write the field: ReadFrom and the helpers
+// that are part of its body — not an accessor such as Conn(), not Close.
+func ruleReassemblyBufferOwner(c *Ctx, rule string) {
+	w := c.W
+	c.Rule(rule, "who may write the reassembly buffer: every store to STUNConn.buff is in (*STUNConn).ReadFrom or in a helper called only from it", 1)
+	fld := w.Field("proto", "STUNConn", "buff")
+	readFrom := w.Func("proto", "STUNConn", "ReadFrom")
+	n := 0
+	for _, fn := range w.ModFns {
+		w.eachInstr(fn, func(in ssa.Instruction) {
+			st, ok := in.(*ssa.Store)
+			if !ok {
+				return
+			}
+			fa, ok := st.Addr.(*ssa.FieldAddr)
+			if !ok || fieldOf(fa) != fld {
+				return
+			}
+			n++
+			c.Anchor(rule, "STUNConn.buff")
+			if w.partOf(fn, readFrom) {
+				c.OK(rule, fname(fn), "store", w.instrPos(in), "written by the de-framer itself")
+				return
+			}
+			// a literal under construction (NewSTUNConn) is not a write to a live buffer
+			if al, isAl := rootAddr(fa.X).(*ssa.Alloc); isAl && al.Parent() == fn {
+				c.OK(rule, fname(fn), "store", w.instrPos(in), "initialisation of a STUNConn under construction")
+				return
+			}
+			c.Bad(rule, fname(fn), "store", w.instrPos(in), "the reassembly buffer is written outside ReadFrom: bytes of a frame that is still incomplete (the head of a frame whose tail has not arrived) are taken away or discarded between two reads, the tail is then parsed as the start of a frame — framing no longer survives this segmentation")
+		})
+	}
+	if n == 0 {
+		c.Anchor(rule, "STUNConn.buff")
+		c.Bad(rule, "-", "store", "-", "no store to STUNConn.buff found: anchor gone")
+	}
 }
